@@ -345,6 +345,13 @@ fn parse_interface_list(
     ctx: &mut ParsingContext<'_>,
     list_type: InterfaceType,
 ) -> ParseResult<InterfaceList> {
+    ctx.nested(|ctx| _parse_interface_list(ctx, list_type))
+}
+
+fn _parse_interface_list(
+    ctx: &mut ParsingContext<'_>,
+    list_type: InterfaceType,
+) -> ParseResult<InterfaceList> {
     let mut interface_list = Vec::new();
 
     let left_par = ctx.stream.expect_kind(LeftPar)?;
